@@ -211,7 +211,7 @@ theorem Eff.inoOK {root : P} {fs fs' : FS} (h : Eff root fs fs') (hio : InoOK fs
   | hardlink q tgt i _ _ hgt _ _ =>
     intro p ino hg
     by_cases e : p = q
-    · rw [e, get_put_same] at hg; cases hg; exact hio tgt ino hgt
+    · rw [e, get_put_same] at hg; cases hg; exact hio tgt _ hgt
     · rw [get_put_other _ _ _ _ e] at hg; exact hio p ino hg
 
 theorem Sys.inoOK {root : P} {fs fs' : FS} (h : Sys root fs fs') (hio : InoOK fs) : InoOK fs' := by
@@ -359,7 +359,6 @@ theorem tarOne_post' (fs : FS) (root : P) (hr : GoodPath root) (hroot : root ≠
     split at h
     · subst h; cases hok
     rename_i fs1 h1
-    simp only [] at h
     split at h
     · subst h; cases hok
     split at h
@@ -470,7 +469,6 @@ theorem tarOne_keep (fs : FS) (root : P) (hr : GoodPath root) (hroot : root ≠ 
     · subst h; rfl
     rename_i fs1 h1
     have e1 := mkdirFrom_inodes _ _ _ _ _ _ h1
-    simp only [] at h
     split at h
     · subst h; rw [e1]
     split at h
@@ -527,9 +525,11 @@ def Final (root : P) (mask : Nat) (e : Entry) (fs' : FS) : Prop :=
 
 theorem extractWith_cons (one : FS → Entry → FS × Bool) (fs : FS) (e : Entry) (es : List Entry) :
     extractWith one fs (e :: es) = if (one fs e).2 = true then extractWith one (one fs e).1 es else ((one fs e).1, false) := by
-  unfold extractWith
   cases h : one fs e with
-  | mk a b => cases b <;> simp
+  | mk a b =>
+    cases b
+    · simp [extractWith, h]
+    · simp [extractWith, h]
 
 theorem tarExtract_cons (fs : FS) (root : P) (mask : Nat) (e : Entry) (es : List Entry) :
     tarExtract fs root mask (e :: es) =
